@@ -206,50 +206,54 @@ Qed.
 (* ====================================================================== *)
 (* packaging of the default                                                *)
 (* ====================================================================== *)
-Lemma run_pk_scalar chain n d :
+Lemma run_pk_scalar chain single n d :
   existsb (fun t => match t with PkNotIsList => true | _ => false end) chain = true ->
   (match d with VList _ => False | _ => True end) ->
-  run_pk chain false n d = Ok (VList (repeat d n)).
+  run_pk chain false single n d = Ok (VList (repeat d n)).
 Proof.
   intros He Hd. induction chain as [|t r IH]; simpl in *; [discriminate|].
   destruct t; simpl in *.
+  - destruct single; [reflexivity | apply IH; exact He].
   - apply IH. exact He.
   - destruct d; try reflexivity. contradiction.
 Qed.
 
 Lemma run_pk_perdest chain is_tl n l :
-  List.length l = n -> run_pk chain is_tl n (VList l) = Ok (VList l).
+  List.length l = n -> run_pk chain is_tl false n (VList l) = Ok (VList l).
 Proof.
   intros Hl. induction chain as [|t r IH]; simpl; [reflexivity|].
   destruct t.
+  - exact IH.
   - destruct is_tl; [|exact IH]. simpl. rewrite Hl, Nat.eqb_refl. exact IH.
   - exact IH.
 Qed.
 
-Lemma run_pk_list_ne chain n l :
+Lemma run_pk_list_ne chain single n l :
   existsb (fun t => match t with PkContainerTypeAndLenNeN => true | _ => false end) chain = true ->
   List.length l <> n ->
-  run_pk chain true n (VList l) = Ok (VList (repeat (VList l) n)).
+  run_pk chain true single n (VList l) = Ok (VList (repeat (VList l) n)).
 Proof.
   intros He Hl. induction chain as [|t r IH]; simpl in *; [discriminate|].
   destruct t; simpl in *.
+  - destruct single; [reflexivity | apply IH; exact He].
   - apply Nat.eqb_neq in Hl. rewrite Hl. reflexivity.
   - apply IH. exact He.
 Qed.
 
-Lemma run_pk_tuple chain n l :
+Lemma run_pk_tuple chain single n l :
   existsb (fun t => match t with PkNotIsList => true | _ => false end) chain = true ->
-  run_pk chain true n (VTuple l) = Ok (VList (repeat (VTuple l) n)).
+  run_pk chain true single n (VTuple l) = Ok (VList (repeat (VTuple l) n)).
 Proof.
   intros He. induction chain as [|t r IH]; simpl in *; [discriminate|].
   destruct t; simpl in *.
+  - destruct single; [reflexivity | apply IH; exact He].
   - destruct (Nat.eqb (List.length l) n); [apply IH; exact He | reflexivity].
   - reflexivity.
 Qed.
 
-Lemma package_of_run_pk n k d :
-  run_pk PK_CHAIN (is_list_kind k || is_tuple_kind k) n d = Ok (VList (repeat d n)) ->
-  package_default_gen n k d = Ok (repeat d n).
+Lemma package_of_run_pk n k single d :
+  run_pk PK_CHAIN (is_list_kind k || is_tuple_kind k) single n d = Ok (VList (repeat d n)) ->
+  package_default_gen n k single d = Ok (repeat d n).
 Proof.
   intros H. unfold package_default_gen, package_default. rewrite H. rewrite repeat_length, Nat.eqb_refl. reflexivity.
 Qed.
@@ -262,7 +266,7 @@ Definition default_safe (n : nat) (k : kind) (d : val) : bool :=
   | _ => scalar_kind k
   end.
 
-Lemma package_single n k d : default_safe n k d = true -> package_default_gen n k d = Ok (repeat d n).
+Lemma package_single n k single d : default_safe n k d = true -> package_default_gen n k single d = Ok (repeat d n).
 Proof.
   intros H. apply package_of_run_pk. destruct d; simpl in H.
   1-5: unfold scalar_kind in H; apply negb_true_iff in H; rewrite H;
@@ -272,7 +276,7 @@ Proof.
   - rewrite H, orb_true_r. apply run_pk_tuple. exact bridge_pk_notlist.
 Qed.
 
-Lemma package_perdest n k d : package_default_gen n k (VList (repeat d n)) = Ok (repeat d n).
+Lemma package_perdest n k d : package_default_gen n k false (VList (repeat d n)) = Ok (repeat d n).
 Proof.
   unfold package_default_gen, package_default.
   rewrite run_pk_perdest by apply repeat_length. rewrite repeat_length, Nat.eqb_refl. reflexivity.
@@ -602,7 +606,7 @@ Qed.
 Lemma run_is_distribute dests k cd cli :
   layout_ok dests ->
   (level (hd "" dests) <> 1 -> cd <> None) ->
-  (level (hd "" dests) = 1 -> forall d, cd = Some d -> package_default_gen (List.length dests) k d = Ok (repeat d (List.length dests))) ->
+  (level (hd "" dests) = 1 -> forall d, cd = Some d -> package_default_gen (List.length dests) k true d = Ok (repeat d (List.length dests))) ->
   sized (List.length dests) (distribute_gen (List.length dests) k (option_map (fun d => repeat d (List.length dests)) cd) cli) ->
   run_gen dests k cd (repeat None (List.length dests)) cli =
   distribute_gen (List.length dests) k (option_map (fun d => repeat d (List.length dests)) cd) cli.
@@ -615,15 +619,15 @@ Proof.
   assert (Hdo : bind (default_object (Nat.eqb (level d0) 1) n cd (repeat None n))
                    (fun dobj => match dobj with
                                 | None => Ok None
-                                | Some d => bind (package_default PK_CHAIN n k d) (fun l => Ok (Some l))
+                                | Some (d, single) => bind (package_default PK_CHAIN n k single d) (fun l => Ok (Some l))
                                 end) = Ok (option_map (fun d => repeat d n) cd)).
   { unfold default_object. destruct (Nat.eqb (level d0) 1) eqn:E1.
     - apply Nat.eqb_eq in E1. assert (Hr : repeat (@None val) n = None :: repeat None (n - 1)).
       { unfold n. simpl. now rewrite Nat.sub_0_r. }
       rewrite Hr. cbn [bind]. destruct cd as [d|]; [|reflexivity]. cbn [bind option_map].
-      fold (package_default_gen n k d). rewrite (Hpk E1 d eq_refl). reflexivity.
+      fold (package_default_gen n k true d). rewrite (Hpk E1 d eq_refl). reflexivity.
     - apply Nat.eqb_neq in E1. destruct cd as [d|]; [|exfalso; apply (Hcd E1); reflexivity].
-      cbn [bind option_map]. fold (package_default_gen n k (VList (repeat d n))). rewrite package_perdest. reflexivity. }
+      cbn [bind option_map]. fold (package_default_gen n k false (VList (repeat d n))). rewrite package_perdest. reflexivity. }
   destruct (default_object (Nat.eqb (level d0) 1) n cd (repeat None n)) as [dobj|e]; [|discriminate].
   cbn [bind] in Hdo |- *. rewrite Hdo. cbn [bind].
   fold (distribute_gen n k (option_map (fun d => repeat d n) cd) cli).
@@ -742,24 +746,27 @@ Proof. vm_compute. reflexivity. Qed.
 Theorem container_full_refuted : ~ container_full_statement.
 Proof.
   intros H.
-  specialize (H ["d0"; "d1"] (KList EInt) (Some (VList [VInt 1; VInt 2])) None layout_two_flat (le_n 2) eq_refl).
-  assert (M : meets (MustBe [VList [VInt 1; VInt 2]; VList [VInt 1; VInt 2]]) (Ok [VInt 1; VInt 2])).
-  { rewrite <- w_dealt_spec, <- w_dealt_model. apply H.
+  specialize (H ["d0"; "d1"] (KList EInt) (Some (VList [])) (Some [t7]) layout_two_flat (le_n 2) eq_refl).
+  assert (M : meets (MustBe [VList [VInt 7]; VList [VInt 7]]) (Ok [VInt 7; VInt 7])).
+  { rewrite <- w_bare_spec, <- w_bare_model. apply H.
     - intros Hlv. exfalso. apply Hlv. reflexivity.
     - intros d E. injection E as <-. reflexivity. }
   simpl in M. discriminate.
 Qed.
 
 (* each of the four behaviours separately: what the model (= the code) does is not what the spec demands *)
-Theorem container_witnesses :
-  ~ meets (spec_expect (KList EInt) [Some (VList [VInt 1; VInt 2]); Some (VList [VInt 1; VInt 2])] None) w_dealt
-  /\ ~ meets (spec_expect (KList EInt) [Some (VList []); Some (VList [])] (Some [t7])) w_bare
-  /\ ~ meets (spec_expect (KTuple EInt None) [Some (VTuple []); Some (VTuple [])] (Some [t3; t4])) w_type
-  /\ ~ meets (spec_expect (KTuple EInt (Some 2)) [Some (VTuple [VInt 1; VInt 2]); Some (VTuple [VInt 1; VInt 2])] (Some [t345])) w_arity.
-Proof.
-  rewrite w_dealt_spec, w_dealt_model, w_bare_spec, w_bare_model, w_type_spec, w_type_model, w_arity_spec, w_arity_model.
-  simpl. repeat split; try (intros H; discriminate). intros [H|H]; discriminate.
-Qed.
+Theorem refuted_default_dealt :
+  ~ meets (spec_expect (KList EInt) [Some (VList [VInt 1; VInt 2]); Some (VList [VInt 1; VInt 2])] None) w_dealt.
+Proof. rewrite w_dealt_spec, w_dealt_model. simpl. discriminate. Qed.
+Theorem refuted_bare_scalar :
+  ~ meets (spec_expect (KList EInt) [Some (VList []); Some (VList [])] (Some [t7])) w_bare.
+Proof. rewrite w_bare_spec, w_bare_model. simpl. discriminate. Qed.
+Theorem refuted_tuple_typeerror :
+  ~ meets (spec_expect (KTuple EInt None) [Some (VTuple []); Some (VTuple [])] (Some [t3; t4])) w_type.
+Proof. rewrite w_type_spec, w_type_model. simpl. discriminate. Qed.
+Theorem refuted_tuple_arity :
+  ~ meets (spec_expect (KTuple EInt (Some 2)) [Some (VTuple [VInt 1; VInt 2]); Some (VTuple [VInt 1; VInt 2])] (Some [t345])) w_arity.
+Proof. rewrite w_arity_spec, w_arity_model. simpl. intros [H|H]; discriminate. Qed.
 
 (* container kinds, partial statement: bracketed literals of the item type (right arity), default treated as one value *)
 Definition cli_bracketed (k : kind) (cli : option (list tok)) : bool :=
